@@ -52,3 +52,45 @@ func (v VerifDB) Load() ([]VerifJob, error) {
 	}
 	return out, nil
 }
+
+// VerifJobs is a jobs table shared by concurrent savers / committers (the provider's jobs map and its lock).
+type VerifJobs struct {
+	m  map[pipeline.SourceID]*Job
+	mu *vsync.RWMutex
+}
+
+func mkJob(j VerifJob) *Job {
+	job := &Job{filename: j.Filename, inode: inodeID(j.Inode), sourceID: pipeline.SourceID(j.SourceID), mu: &vsync.Mutex{}}
+	for _, s := range j.Streams {
+		job.offsets.Set(pipeline.StreamName(s.Name), s.Offset)
+	}
+	return job
+}
+
+func VerifNewJobs(jobs []VerifJob) *VerifJobs {
+	t := &VerifJobs{m: map[pipeline.SourceID]*Job{}, mu: &vsync.RWMutex{}}
+	for _, j := range jobs {
+		t.m[pipeline.SourceID(j.SourceID)] = mkJob(j)
+	}
+	return t
+}
+
+// Add registers a new job the way addJob does (under the write lock).
+func (t *VerifJobs) Add(j VerifJob) {
+	t.mu.Lock()
+	t.m[pipeline.SourceID(j.SourceID)] = mkJob(j)
+	t.mu.Unlock()
+}
+
+// Commit stores a stream offset the way jobProvider.commit does (under the job's lock).
+func (t *VerifJobs) Commit(sourceID uint64, stream string, offset int64) {
+	t.mu.RLock()
+	job := t.m[pipeline.SourceID(sourceID)]
+	t.mu.RUnlock()
+	job.mu.Lock()
+	job.offsets.Set(pipeline.StreamName(stream), offset)
+	job.mu.Unlock()
+}
+
+// SaveShared calls the real offsetDB.save on the shared table.
+func (v VerifDB) SaveShared(t *VerifJobs) { v.db.save(t.m, t.mu) }
